@@ -375,6 +375,13 @@ def _group_ok(vg, first, idx_list, labels, patterns=True, zero_ok=()):
             return False
         if tuple(vg.to_index(vid)) != idx or tuple(vg.to_index(-vid)) != idx:
             return False
+        got = vg.to_index(vid)
+        if isinstance(got, list):
+            # the answer is the caller's to keep or to edit: editing it does not change later answers
+            got.append(0)
+            got[0] = -7
+            if tuple(vg.to_index(vid)) != idx or tuple(vg.to_index(-vid)) != idx or vg(*idx) != vid:
+                return False
         if vg.label(*idx) != labels[k]:
             return False
         if vid not in vg or -vid not in vg:
